@@ -44,6 +44,8 @@ fn main() {
         "flags-byte" => guarded(move || status::flags_byte(&hex(&arg))),
         "authdata-decode" => guarded(move || status::authdata_decode(&arg)),
         "cbor-bytes" => guarded(move || cbor::bytes(&hex(&arg))),
+        "cose-der" => guarded(move || cbor::cose_der(&arg)),
+        "cbor-get-info-response" => guarded(move || cbor::get_info_response(&hex(&arg))),
         "cbor-make-credential-request" => guarded(move || cbor::mc_request(&hex(&arg))),
         "shipped-store" => guarded(move || ceremony::shipped_store(&arg)),
         "client-ceremonies" => guarded(move || client::sweep()),
